@@ -30,7 +30,7 @@ META = {
             "variable-length elements and decodable since fix 6666d44, C03 F23). main loads the file before it starts the listeners "
             "(F18) under the guard 'IPFIX or NetFlow v9 enabled' (F34; regenerated: .loadElementsIf), and every package that indexes "
             "ipfix.InfoModel (regenerated: modelReaders) is the decoder package of a listener (decoderSwitches) whose switch is a "
-            "disjunct of that guard (gen_load_guard_covers_readers; the guard before fix 50ba95f, a third reader, a reader that is no "
+            "disjunct of that guard (gen_load_guard_covers_readers; the guard before fix c4f5256, a third reader, a reader that is no "
             "listener's decoder: false). "
             "Correspondence: real InfoModel before/after the real LoadExtElements, every key.",
     "ref": "DESIGN.md §6 C20, §8 F18 F34",
